@@ -324,6 +324,33 @@ theorem am_dynamic_pairing (c : Tens α) (B S : Nat) (hS : 0 < S) (rest : List N
   simp only [mult, hS, if_true, Nat.mul_one] at this
   simpa [cacheBatchify, Params.amCacheUsesBatchify] using this
 
+theorem replicateSite_pairing (x : Tens α) (B S : Nat) (hS : 0 < S) (rest : List Nat) (h : x.shape = B :: rest) :
+    (replicateSite true x S).shape = (B * S) :: rest ∧
+    ∀ r t, r < B * S → (replicateSite true x S).get (r :: t) = x.get ((r % B) :: t) := by
+  have := batchify_row [S] x B rest h
+  simp only [mult, hS, if_true, Nat.mul_one] at this
+  simpa [replicateSite] using this
+
+/-- **C12 `zoo_replication_pairing`**: every multi-start replication site of the policy zoo outside the AM decoder
+(L2D's encoder embeddings, the non-autoregressive heat-map index, MatNet/FFSP's state, EAS's state) expands
+start-major like the decoding state itself: the row that meets state row `r` belongs to instance `r % B`. -/
+theorem zoo_replication_pairing (x : Tens α) (B S : Nat) (hS : 0 < S) (rest : List Nat) (h : x.shape = B :: rest) :
+    (∀ r t, r < B * S → (l2dHidden x S).get (r :: t) = x.get ((r % B) :: t)) ∧
+    (∀ r t, r < B * S → (narIndex x S).get (r :: t) = x.get ((r % B) :: t)) ∧
+    (∀ r t, r < B * S → (matnetTd x S).get (r :: t) = x.get ((r % B) :: t)) ∧
+    (∀ r t, r < B * (S + 1) → (easTd x S).get (r :: t) = x.get ((r % B) :: t)) := by
+  refine ⟨?_, ?_, ?_, ?_⟩
+  · simpa [l2dHidden, Params.l2dHiddenUsesBatchify] using (replicateSite_pairing x B S hS rest h).2
+  · simpa [narIndex, Params.narIndexUsesBatchify] using (replicateSite_pairing x B S hS rest h).2
+  · simpa [matnetTd, Params.matnetTdUsesBatchify] using (replicateSite_pairing x B S hS rest h).2
+  · simpa [easTd, Params.easTdUsesBatchify] using (replicateSite_pairing x B (S + 1) (by omega) rest h).2
+
+/-- the instance-major form pairs state row `r` (instance `r % B`) with the embeddings of instance `r / S`:
+two instances, two starts — row 1 (instance 1) meets instance 0's embeddings -/
+theorem replicateSite_instance_major_mismatch :
+    (replicateSite false (iota 2) 2).flat = [0, 0, 1, 1] ∧ (replicateSite true (iota 2) 2).flat = [0, 1, 0, 1] := by
+  decide
+
 /-- **`gather_by_index`, when the step dimension survives**: for `src : [B, N, …]`, `idx : [B, S]` the result is
 `[B, S, …]` with `[b][s] = src[b][idx b s]` iff `S ≠ 1` or `squeeze = False` … -/
 theorem gatherIdx_step_survives (src : Tens α) (B N S : Nat) (rest : List Nat) (h : src.shape = B :: N :: rest)
